@@ -17,7 +17,7 @@ theorem stopFn_beq (q : Req) (h : 0 < q.every) (t u : Int) :
     (stopFn q t == stopFn q u) = (widx q t == widx q u) := by
   rw [stopFn_eq, stopFn_eq]
   by_cases hw : widx q t = widx q u
-  · simp [hw]
+  · rw [hw]; simp
   · have : ¬ (q.offset + (widx q t + 1) * q.every = q.offset + (widx q u + 1) * q.every) := by
       intro he
       have : (widx q t + 1) * q.every = (widx q u + 1) * q.every := by omega
@@ -49,7 +49,7 @@ theorem mem_distinctIdx (q : Req) : ∀ (pts : List (Pt Val)) (i : Int),
 
 theorem filterMap_cons_toList {β γ : Type} (f : β → Option γ) (x : β) (xs : List β) :
     (x :: xs).filterMap f = (f x).toList ++ xs.filterMap f := by
-  cases h : f x <;> simp [List.filterMap_cons, h]
+  cases h : f x <;> simp [h]
 
 /-- **group by window, restated**: the grouped aggregate of C20 is the list of window
     aggregates over the distinct window indices -/
@@ -65,8 +65,8 @@ theorem aggSpec_windows (o : Ops Val) (q : Req) (h : 0 < q.every) :
       List.filter_congr (fun x _ => stopFn_beq q h x.1 p.1)
     have hf2 : ps.filter (fun x => !(stopFn q x.1 == s)) = ps.filter (fun x => !(widx q x.1 == widx q p.1)) :=
       List.filter_congr (fun x _ => by rw [show s = stopFn q p.1 from rfl, stopFn_beq q h])
-    rw [hf1, hf2] at *
-    rw [ih]
+    rw [hf2] at ih
+    rw [hf1, hf2, ih]
     congr 1
     · simp only [rowOfIn, List.filter_cons, beq_self_eq_true, ↓reduceIte]
       rfl
